@@ -451,5 +451,28 @@ func (e *FieldAccessExpr) String() string {
 }
 
 func (e *FieldAccessExpr) ReturnType() Type {
+	// An element of a list of numbers is a number: int_list(1, 2)[0] > 0.
+	// Everything else (a part of split(), a member of a JSON document) is
+	// handled as a string
+	left := e.Left
+	for {
+		ref, ok := left.(*FieldReferenceExpr)
+		if !ok {
+			break
+		}
+		left = ref.FieldExpr
+	}
+	if fc, ok := left.(*FunctionCallExpr); ok {
+		if fname, err := GetFuncNameFromExpr(fc); err == nil {
+			switch fname {
+			case "int_list", "ilist", "float_list", "flist":
+				return TNUMBER
+			case "list":
+				if len(fc.Args) > 0 && fc.Args[0].ReturnType() == TNUMBER {
+					return TNUMBER
+				}
+			}
+		}
+	}
 	return TSTR
 }
